@@ -39,10 +39,10 @@ pub fn run(ctx: &Ctx) -> PropReport {
     p.ticks = ctx.tier.pick((200, 900), (1500, 4000));
     p.windows.push((2, 0));
     let rule = "C01's scenario space (plus lockstep and spectators); every request is checked by the strict game while it is executed: Save names the game's frame; Load names an earlier frame whose cell holds exactly what was last saved for it and equals the fold of the current timeline up to that frame; Advance without gaps; afterwards game frame == current_frame() and delta in {0,1}; Save(0) precedes the first simulation of frame 0; spectators: only Advance, count == delta; non-trivial = >=1 Load executed and fully verified";
-    rep.part(|| run_random(ctx, "p2p", rule, || scenario(&p), ctx.tier.pick(1200, 5000), eval));
+    rep.part(|| run_random(ctx, "p2p", rule, || scenario(&p), ctx.tier.pick(4000, 16000), eval));
     let mut ps = p.clone();
     ps.outages = 0;
-    rep.part(|| run_random(ctx, "starved", "same oracle; one directed link is down for 0.3-6 s with timeouts raised to 60 s so that sessions sit at the prediction limit (stalls) and recover", || starved(&ps), ctx.tier.pick(600, 2500), eval));
+    rep.part(|| run_random(ctx, "starved", "same oracle; one directed link is down for 0.3-6 s with timeouts raised to 60 s so that sessions sit at the prediction limit (stalls) and recover", || starved(&ps), ctx.tier.pick(2000, 8000), eval));
     rep.part(|| super::c13::c02_part(ctx));
     rep.floors.push(("p2p".into(), 0.3));
     rep.assumptions = vec!["the harness game executes requests strictly in order and is itself deterministic".into()];
